@@ -30,7 +30,8 @@ def check_program(ctx, line, sp, events, profile, stage):
     e = line['prog']
     js = json.dumps(e)
     sig0 = {'part': 'programs', 'profile': profile, 'top': U.top2(e), 'size': 'big' if sp.big else 'small',
-            'has_mat_leaf': 'yes' if '"t": "mat"' in js else 'no', 'maps': '%s->%s' % (line['dom'], line['ran'])}
+            'has_mat_leaf': 'yes' if '"t": "mat"' in js else 'no', 'maps': '%s->%s' % (line['dom'], line['ran']),
+            'functional_on_field': 'yes' if ('"t": "smul"' in js and ('"t": "l2sq"' in js or '"t": "l1"' in js)) else 'no'}
     detail0 = {'stage': stage, 'line': line, 'profile': profile, 'big': sp.big}
     if profile == 'C' and '"t": "l2sq"' in js:
         # |x|^2 is not complex-differentiable; ODL documents the "C = R^2" convention for such maps.
@@ -128,8 +129,8 @@ def run(ctx):
     work = ctx.work
     jobs = []
     for prof in ('R', 'RW', 'C'):
-        jobs.append(('exh', prof, 's' if quick else 'm3', None, None))
-        jobs.append(('sim', prof, 'l', 'num=%d' % (150 if quick else 3000), 7))
+        jobs.append(('exh', prof, 's' if (quick or prof != 'R') else 'm3', None, None))
+        jobs.append(('sim', prof, 'l', 'num=%d' % (150 if quick else 1500), 7))
 
     def go(j):
         name, prof, size, sim, depth = j
